@@ -1,10 +1,30 @@
-"""C11 - OrderedMap and Set: insertion-ordered model, exact diffs (sequential half)."""
-from lib.units import SeqUnit
+"""C11 - OrderedMap and Set: insertion-ordered model, exact diffs, no deadlock.
+
+Sequential half (this file, spec/orderedset/*.tla, harness/sut/orderedset): every public method of
+orderedmap.OrderedMap / serializableorderedmap, ds.Set (incl. ReadOnly views, SetMutations) and
+ds.SetArithmetic against an insertion-ordered abstract map/set: exhaustive TLC, LTS tour on the real
+objects, recorded histories validated by TLC.
+
+The concurrent half (deadlock freedom of all method combinations, atomicity of Apply/Compute/Replace,
+linearizability of single-element operations) adds its units in concurrent_units().
+"""
+from lib.units import McUnit, SeqUnit
 
 
-def units(ctx):
+def sequential_units(ctx):
     return [
         SeqUnit("orderedset", "OrderedMap"),
         SeqUnit("orderedset", "OrderedSet"),
         SeqUnit("orderedset", "SetArith"),
+        # negative control: the model of Replace as it was before the fix commits must violate `Diffs`
+        McUnit("orderedset", "OrderedSet", cfgkind="buggy", name="OrderedSet:replace-before-fix", expect="Diffs"),
     ]
+
+
+def concurrent_units(ctx):
+    # SetImpl.tla (applyMutex / map mutex, schedules with park detection) - built separately
+    return []
+
+
+def units(ctx):
+    return sequential_units(ctx) + concurrent_units(ctx)
